@@ -195,6 +195,35 @@ type Origins struct {
 	derived    map[ssa.Value]map[ssa.Value]bool // root -> set of values derived from its address
 	derivedEsc map[escKey]map[ssa.Value]bool
 	depth      int
+
+	// cutEdges: CFG edges assumed not taken (a path condition); reaching stores and phis ignore them.
+	cutEdges map[Edge]bool
+}
+
+// WithCut returns a fresh context of the same function and calling context in which the given edges are
+// assumed not taken. Values computed in it are the provenance restricted to the remaining paths.
+func (o *Origins) WithCut(edges map[Edge]bool) *Origins {
+	c := &Origins{p: o.p, Fn: o.Fn, Loops: o.Loops, caller: o.caller, call: o.call, outer: o.outer, mc: o.mc,
+		memo: map[ssa.Value]*Ex{}, busy: map[ssa.Value]bool{}, derived: map[ssa.Value]map[ssa.Value]bool{},
+		depth: o.depth, cutEdges: edges}
+	return c
+}
+
+// predCut: every edge pred -> b is cut.
+func (o *Origins) predCut(pred, b *ssa.BasicBlock) bool {
+	if len(o.cutEdges) == 0 {
+		return false
+	}
+	any := false
+	for i, s := range pred.Succs {
+		if s == b {
+			if !o.cutEdges[Edge{pred, i}] {
+				return false
+			}
+			any = true
+		}
+	}
+	return any
 }
 
 // OriginsOf returns the top-level provenance context of fn.
@@ -635,7 +664,10 @@ func (o *Origins) phi(ph *ssa.Phi) *Ex {
 		return mk("loopvar", "", r)
 	}
 	alts := make([]*Ex, 0, len(ph.Edges))
-	for _, e := range ph.Edges {
+	for i, e := range ph.Edges {
+		if o.predCut(ph.Block().Preds[i], ph.Block()) {
+			continue
+		}
 		alts = append(alts, o.Of(e))
 	}
 	return mkPhi(alts)
@@ -980,7 +1012,7 @@ func (o *Origins) reaching(root ssa.Value, path []pathElem, at ssa.Instruction, 
 			return
 		}
 		for _, pr := range b.Preds {
-			if visited[pr] {
+			if visited[pr] || o.predCut(pr, b) {
 				continue
 			}
 			visited[pr] = true
